@@ -151,6 +151,9 @@ def always_leaves_function(stmts):
 def negate(test):
     if isinstance(test, ast.UnaryOp) and isinstance(test.op, ast.Not):
         return test.operand
+    if isinstance(test, ast.BoolOp) and all(_negative(v) for v in test.values):
+        other = ast.And() if isinstance(test.op, ast.Or) else ast.Or()
+        return ast.copy_location(ast.BoolOp(op=other, values=[negate(v) for v in test.values]), test)
     if isinstance(test, ast.Compare) and len(test.ops) == 1:
         flip = {ast.Eq: ast.NotEq, ast.NotEq: ast.Eq, ast.Is: ast.IsNot, ast.IsNot: ast.Is, ast.In: ast.NotIn, ast.NotIn: ast.In}
         t = flip.get(type(test.ops[0]))
@@ -166,12 +169,21 @@ def _negative(test):
     """A test written in negative form whose negation can be written without `not`."""
     if isinstance(test, ast.UnaryOp) and isinstance(test.op, ast.Not):
         return True
+    if isinstance(test, ast.BoolOp):
+        return all(_negative(v) for v in test.values)
     if isinstance(test, ast.Compare) and len(test.ops) == 1:
         if isinstance(test.ops[0], (ast.NotEq, ast.IsNot, ast.NotIn)):
             return True
         if isinstance(test.ops[0], (ast.GtE, ast.LtE)) and any(_is_intlike(x) for x in (test.left, test.comparators[0])):
             return True
     return False
+
+
+def _simple_target(t):
+    """A name or an attribute chain over a name (evaluating it has no effect)."""
+    while isinstance(t, ast.Attribute):
+        t = t.value
+    return isinstance(t, ast.Name)
 
 
 def _is_intlike(e):
@@ -422,7 +434,7 @@ class FuncCanon(object):
         changed = False
         for blk in _all_blocks(self.fn):
             top = blk is self.fn.body
-            if self.star(blk) or self.split(blk) or self.forelse(blk) or self.rot(blk) or self.brk(blk, top) or self.wtop(blk) or self.ifs(blk) or self.sink(blk) or self.unpack(blk) or self.fwd(blk):
+            if self.star(blk) or self.split(blk) or self.retsplit(blk) or self.forelse(blk) or self.rot(blk) or self.brk(blk, top) or self.wtop(blk) or self.ifs(blk) or self.sink(blk) or self.unpack(blk) or self.fwd(blk):
                 return True
         return changed
 
@@ -463,8 +475,7 @@ class FuncCanon(object):
             # IFASSIGN: both arms assign the same name once
             if (len(st.body) == 1 and len(st.orelse) == 1 and isinstance(st.body[0], ast.Assign) and isinstance(st.orelse[0], ast.Assign)
                     and len(st.body[0].targets) == 1 and len(st.orelse[0].targets) == 1
-                    and isinstance(st.body[0].targets[0], ast.Name) and isinstance(st.orelse[0].targets[0], ast.Name)
-                    and st.body[0].targets[0].id == st.orelse[0].targets[0].id
+                    and _simple_target(st.body[0].targets[0]) and _dump(st.body[0].targets[0]) == _dump(st.orelse[0].targets[0])
                     and not any(isinstance(n, (ast.Yield, ast.YieldFrom)) for a_ in (st.body[0], st.orelse[0]) for n in ast.walk(a_))):
                 v = st.body[0].targets[0]
                 new = ast.Assign(targets=[v], value=ast.IfExp(test=st.test, body=st.body[0].value, orelse=st.orelse[0].value))
@@ -514,6 +525,19 @@ class FuncCanon(object):
                             n.args[k:k + 1] = a.value.elts
                             self.bump("STAR")
                             return True
+        return False
+
+    # -- RETSPLIT --------------------------------------------------------------------------------------------------
+    def retsplit(self, blk):
+        """`return a if c else b` -> `if c: return a` ; `return b`"""
+        for i, st in enumerate(blk):
+            if isinstance(st, ast.Return) and isinstance(st.value, ast.IfExp):
+                v = st.value
+                r1 = ast.copy_location(ast.Return(value=v.body), st)
+                r2 = ast.copy_location(ast.Return(value=v.orelse), st)
+                blk[i:i + 1] = [ast.copy_location(ast.If(test=v.test, body=[r1], orelse=[]), st), r2]
+                self.bump("RETSPLIT")
+                return True
         return False
 
     # -- SPLIT -----------------------------------------------------------------------------------------------------
@@ -719,16 +743,21 @@ class FuncCanon(object):
         return v not in self.params and v not in self.captured and len(self.stores.get(v, ())) == 1 and len(self.loads.get(v, ())) == 1
 
     def _target_independent(self, t, elts, v):
-        """The new target's own sub-expressions do not read any other name bound by the same unpacking."""
+        """Moving the store into target t from after the unpacking to v's position inside it changes nothing: the elements
+        that are now assigned after it neither bind a name t reads nor read a name t binds."""
         if _has_call(t):
             return False
-        others = set()
-        for e in elts:
-            for n in ast.walk(e):
-                if isinstance(n, ast.Name) and n.id != v:
-                    others.add(n.id)
+        pos = [k for k, e in enumerate(elts) if isinstance(e, ast.Name) and e.id == v]
+        later = elts[pos[0] + 1:] if pos else list(elts)
+        bound_later = {e.id for e in later if isinstance(e, ast.Name)}
         reads = {n.id for n in ast.walk(t) if isinstance(n, ast.Name)}
-        return not (reads & others)
+        if reads & bound_later:
+            return False
+        if isinstance(t, ast.Name):
+            for e in later:
+                if not isinstance(e, ast.Name) and any(isinstance(n, ast.Name) and n.id == t.id for n in ast.walk(e)):
+                    return False
+        return True
 
     # -- FWD -------------------------------------------------------------------------------------------------------
     def fwd(self, blk):
@@ -1253,7 +1282,7 @@ def _tailify(stmts, ret, at):
         if _contains_return(st):
             raise Bail("return inside a loop / try / with")
         out.append(st)
-    if ret is not None:
+    if ret is not None and not always_exits(out):
         out.append(ast.copy_location(ast.Assign(targets=[ast.copy_location(ast.Name(id=ret, ctx=ast.Store()), at)], value=ast.copy_location(ast.Constant(value=None), at)), at))
     return out
 
